@@ -124,6 +124,10 @@ pub fn for_each_inconsistent(addr: u16, typ: u8, data: &[u8], newline: bool, mut
         let chk = ((256 - ((sum_rest + l as u32) % 256)) % 256) as u8;
         s[chk_pos..chk_pos + 2].copy_from_slice(&hexpair(chk));
         f("wrong-length", &s);
+        // and with the checksum left as it was (consistent with the TRUE length): declared length still disagrees
+        let mut s2 = good.clone();
+        s2[1..3].copy_from_slice(&hexpair(l));
+        f("wrong-length-original-checksum", &s2);
     }
     // more than 255 data bytes on the wire with a length field that agrees modulo 256 (checksum consistent)
     if data.len() <= 3 {
@@ -309,6 +313,61 @@ pub fn run(ctx: &Ctx) -> Report {
     for a in accs {
         all.merge(ID, a);
     }
+    // decode history: on a fresh thread first decode the frame itself and a long valid frame (255 bytes of 0x11, then 16),
+    // then every proper prefix / single deletion of the frame's wire string; still "error or the original"
+    let long1 = ref_encode(0x0003, 0, &[0x11; 255], true);
+    let long2 = ref_encode(0x0003, 0, &[0x11; 16], true);
+    let hist_bases: Vec<usize> = (0..bases.len()).filter(|&i| bases[i].2.len() <= 16 && (i % 7 == 0 || bases[i].2.len() >= 2)).take(if thorough { 400 } else { 120 }).collect();
+    // plus two frame shapes with every byte value at every data position: after a truncation one of the data bytes
+    // lands in the checksum position, and a decoder that fills the missing tail from stale bytes accepts the string
+    // exactly when that byte has one particular value
+    let mut hist_frames: Vec<(u16, u8, Vec<u8>)> = hist_bases.iter().map(|&i| bases[i].clone()).collect();
+    for v in 0..=255u8 {
+        for pos in 0..2 {
+            let mut d = vec![0xFE, 0x07];
+            d[pos] = v;
+            hist_frames.push((0x0000, 0, d));
+        }
+        for pos in 0..4 {
+            let mut d = vec![0x40, 0x86, 0x01, 0x02];
+            d[pos] = v;
+            hist_frames.push((0x0003, 0, d));
+        }
+    }
+    let accs = par_range(hist_frames.len() as u64, 1, Acc::default, |acc, i| {
+        let (addr, typ, ref data) = hist_frames[i as usize];
+        let wire = ref_encode(addr, typ, data, false);
+        let mut damages: Vec<Vec<u8>> = vec![];
+        for k in 0..wire.len() {
+            damages.push(wire[..k].to_vec());
+            let mut d = wire.clone();
+            d.remove(k);
+            damages.push(d);
+        }
+        let (w2, l1, l2, d2) = (wire.clone(), long1.clone(), long2.clone(), data.clone());
+        let results: Vec<Option<(&'static str, String, String)>> = crate::util::in_fresh_thread(move || {
+            let mut out = vec![];
+            for dmg in &damages {
+                let _ = catch(|| Frame::from_bytes(&w2).is_ok());
+                let _ = catch(|| Frame::from_bytes(&l1).is_ok());
+                let _ = catch(|| Frame::from_bytes(&l2).is_ok());
+                let (_, v) = check_damaged((addr, typ, &d2), dmg, false);
+                out.push(v);
+            }
+            out
+        });
+        acc.evals += results.len() as u64;
+        acc.outcomes.addn("after-earlier-decodes", results.len() as u64);
+        for (k, v) in results.into_iter().enumerate() {
+            if let Some((clause, cl, detail)) = v {
+                let dmg: Vec<u8> = if k % 2 == 0 { wire[..k / 2].to_vec() } else { let mut d = wire.clone(); d.remove(k / 2); d };
+                acc.violation(ID, Violation::new(clause, format!("after-earlier-decodes:{}", cl), format!("after decoding the frame itself and two longer frames on the same thread: {}", detail), json!({"kind": "decode-history", "addr": addr, "type": typ, "data": hex(data), "wire": hex(&dmg)}), (1u64 << 49) | (i << 12) | k as u64));
+            }
+        }
+    });
+    for a in accs {
+        all.merge(ID, a);
+    }
     // read path with history: every prefix (1..=6 bytes) of three valid lines is left behind by a failed read; then each
     // base line with its first byte replaced by every other value is read on the same thread
     let prefix_sources: Vec<Vec<u8>> = vec![ref_encode(0xFE00, 0, &[7, 3], true), ref_encode(0x0003, 2, &[0xFF], true), ref_encode(0x00FD, 0, &[0, 0x7F, 2], true)];
@@ -357,6 +416,20 @@ pub fn run(ctx: &Ctx) -> Report {
 }
 
 pub fn replay(_ctx: &Ctx, case: &Value) -> Result<Vec<Violation>, String> {
+    if case["kind"].as_str() == Some("decode-history") {
+        let (addr, typ) = (case["addr"].as_u64().ok_or("addr")? as u16, case["type"].as_u64().ok_or("type")? as u8);
+        let data = unhex(case["data"].as_str().ok_or("data")?);
+        let dmg = unhex(case["wire"].as_str().ok_or("wire")?);
+        let wire = ref_encode(addr, typ, &data, false);
+        let (l1, l2) = (ref_encode(0x0003, 0, &[0x11; 255], true), ref_encode(0x0003, 0, &[0x11; 16], true));
+        let v = crate::util::in_fresh_thread(move || {
+            let _ = catch(|| Frame::from_bytes(&wire).is_ok());
+            let _ = catch(|| Frame::from_bytes(&l1).is_ok());
+            let _ = catch(|| Frame::from_bytes(&l2).is_ok());
+            check_damaged((addr, typ, &data), &dmg, false).1
+        });
+        return Ok(v.into_iter().map(|(c, k, d)| Violation::new(c, format!("after-earlier-decodes:{}", k), d, case.clone(), 0)).collect());
+    }
     if case["kind"].as_str() == Some("read-history") {
         let d = unhex(case["data"].as_str().ok_or("data")?);
         let v = check_read_after_failed_read(&unhex(case["prefix"].as_str().ok_or("prefix")?), (case["addr"].as_u64().ok_or("addr")? as u16, case["type"].as_u64().ok_or("type")? as u8, &d), &unhex(case["line"].as_str().ok_or("line")?));
